@@ -149,10 +149,12 @@ BinOpV(op, l, r) ==
        ELSE IF op = "Pow" THEN Unmod("pow-not-rewritten")
        ELSE ArithInt(op, l, r)
   ELSE IF l.t.t = "fixed" /\ r.t.t = "fixed" THEN ArithFixed(op, l, r)
-  ELSE IF op = "Mult" /\ l.t.t = "fixed" /\ IsIntLike(r.t) /\ r.lit THEN
-       Norm(l.t, l.v * r.v, l.det, FALSE, tg)
-  ELSE IF op = "Mult" /\ r.t.t = "fixed" /\ IsIntLike(l.t) /\ l.lit THEN
-       Norm(r.t, l.v * r.v, r.det, FALSE, tg)
+  \* fixed point times an integer (the library supports literal factors only; any other factor it accepts must
+  \* still mean the product)
+  ELSE IF op = "Mult" /\ l.t.t = "fixed" /\ IsIntLike(r.t) THEN
+       Norm(l.t, l.v * r.v, MinI(l.det, r.det), FALSE, tg)
+  ELSE IF op = "Mult" /\ r.t.t = "fixed" /\ IsIntLike(l.t) THEN
+       Norm(r.t, l.v * r.v, MinI(l.det, r.det), FALSE, tg)
   ELSE Unmod("binop-operand-types")
 
 ---------------------------------------------------------------------------
@@ -532,6 +534,18 @@ Reduce(x) ==
 RECURSIVE AllTrig(_)
 AllTrig(x) == IF Bad(x) THEN {} ELSE IF x.t.t = "tuple" THEN x.trig \cup UNION {AllTrig(x.v[j]) : j \in 1..Len(x.v)} ELSE x.trig
 
+\* a parameter value has its DECLARED type (Parameter[Qint[4]] bound to 1 is a Qint4): the literal's own
+\* (smallest) type is what the library gives it -- wherever the two differ the value carries the trigger
+\* "parameter-typed-by-its-value", so that a failure explained by that typing can be told from a new one
+RECURSIVE ParamVal(_, _)
+ParamVal(x, D) ==
+  IF Bad(x) THEN x
+  ELSE IF D.t = "tuple" /\ x.t.t = "tuple" /\ Len(D.elts) = Len(x.v)
+       THEN Ok(D, [j \in 1..Len(x.v) |-> ParamVal(x.v[j], D.elts[j])], INF, FALSE, x.trig)
+  ELSE IF D.t = "int" /\ x.t.t = "int" /\ x.t.w < D.w /\ x.v >= 0
+       THEN Ok(D, x.v, INF, FALSE, x.trig \cup {"parameter-typed-by-its-value"})
+  ELSE [x EXCEPT !.lit = FALSE]
+
 \* run the function `def` (FunctionDef node with tdesc/rdesc decorations) on input row r
 \* params: record name -> constant node payloads for Parameter[...] arguments (bound as literals)
 RunRow(def, fns, r, params) ==
@@ -540,7 +554,7 @@ RunRow(def, fns, r, params) ==
       B(j, off, env) ==
         IF j > Len(ps) THEN env
         ELSE IF "param" \in DOMAIN ps[j]
-             THEN B(j + 1, off, EnvPut(env, ps[j].arg, [Eval(params[ps[j].arg], EmptyEnv, fns) EXCEPT !.lit = FALSE]))
+             THEN B(j + 1, off, EnvPut(env, ps[j].arg, ParamVal(Eval(params[ps[j].arg], EmptyEnv, fns), ps[j].tdesc)))
              ELSE LET T == ps[j].tdesc  w == Width(T)
                       bits == [k \in 1..w |-> BitAt(r, off + k - 1)]
                   IN B(j + 1, off + w, EnvPut(env, ps[j].arg, ToVal(T, Dec(T, bits))))
